@@ -19,6 +19,7 @@ import (
 	rcrypto "github.com/rigochain/rigo-go/types/crypto"
 	tmsecp "github.com/tendermint/tendermint/crypto/secp256k1"
 	tmproto "github.com/tendermint/tendermint/proto/tendermint/types"
+	tmjson "github.com/tendermint/tendermint/libs/json"
 	tmtypes "github.com/tendermint/tendermint/types"
 
 	"verifsim/chain"
@@ -40,6 +41,14 @@ type strace struct {
 	Reqs    []Req  `json:"reqs"`
 	Reload  []bool `json:"reload"` // reload before request i
 	KeySeed uint64 `json:"keySeed"`
+	Pass    string `json:"pass,omitempty"` // passphrase protecting the key file ("" = plaintext key file)
+}
+
+func (t *strace) pass() []byte {
+	if t.Pass == "" {
+		return nil
+	}
+	return []byte(t.Pass)
 }
 
 func step(k string) int8 {
@@ -121,7 +130,7 @@ func run(t *strace, dir string) ([]*chain.Violation, *chain.Probes, []string) {
 	kb := sha256.Sum256([]byte(fmt.Sprintf("verif-signer-key-%d", t.KeySeed)))
 	priv := tmsecp.PrivKey(kb[:])
 	r.pv = rcrypto.NewSFilePV(priv, r.keyFile, r.stateFile)
-	r.pv.SaveWith(nil)
+	r.pv.SaveWith(t.pass())
 	pub := priv.PubKey()
 	addr := pub.Address()
 
@@ -129,8 +138,11 @@ func run(t *strace, dir string) ([]*chain.Violation, *chain.Probes, []string) {
 	signed := map[hrs]*signedRec{}
 	for i, q := range t.Reqs {
 		if i < len(t.Reload) && t.Reload[i] {
-			r.pv = rcrypto.LoadSFilePV(r.keyFile, r.stateFile, nil)
+			r.pv = rcrypto.LoadSFilePV(r.keyFile, r.stateFile, t.pass())
 			r.probes.Hit("fault.reload")
+			if t.Pass != "" {
+				r.probes.Hit("fault.reload.encrypted-key")
+			}
 		}
 		cur := hrs{q.H, q.R, step(q.Kind)}
 		ts := t0.Add(time.Duration(q.TsMs) * time.Millisecond)
@@ -208,8 +220,13 @@ func run(t *strace, dir string) ([]*chain.Violation, *chain.Probes, []string) {
 			signed[cur] = &signedRec{core: coreBytes, sig: append([]byte(nil), sig...), ts: outTs}
 			r.probes.Hit("signed.fresh")
 			// crash right after release: a fresh process must already see this signature on disk
-			fresh := rcrypto.LoadSFilePV(r.keyFile, r.stateFile, nil)
-			ls := fresh.LastSignState
+			var ls rcrypto.SFilePVLastSignState
+			if t.Pass == "" {
+				ls = rcrypto.LoadSFilePV(r.keyFile, r.stateFile, nil).LastSignState
+			} else {
+				// the key derivation is slow on purpose; the state file alone decides this probe
+				ls = readState(r.stateFile)
+			}
 			if ls.Height != cur.H || ls.Round != cur.R || ls.Step != cur.S || !bytes.Equal(ls.Signature, sig) || !bytes.Equal(ls.SignBytes, signBytes) {
 				r.fail(i, "signer.not-durable", "signature for %v was released but the state file holds %d/%d/%d", cur, ls.Height, ls.Round, ls.Step)
 				break
@@ -217,6 +234,15 @@ func run(t *strace, dir string) ([]*chain.Violation, *chain.Probes, []string) {
 		}
 	}
 	return r.viol, r.probes, r.log
+}
+
+func readState(path string) rcrypto.SFilePVLastSignState {
+	var ls rcrypto.SFilePVLastSignState
+	b, err := os.ReadFile(path)
+	if err == nil {
+		_ = tmjson.Unmarshal(b, &ls)
+	}
+	return ls
 }
 
 func generate(rng *core.Rand, tier string) *strace {
@@ -285,6 +311,13 @@ func generate(rng *core.Rand, tier string) *strace {
 		t.Reqs = append(t.Reqs, q)
 	}
 	t.Reload = make([]bool, len(t.Reqs))
+	if rng.Intn(60) == 0 {
+		t.Pass = "verif-pass"
+		if len(t.Reqs) > 8 {
+			t.Reqs = t.Reqs[:8]
+			t.Reload = t.Reload[:8]
+		}
+	}
 	return t
 }
 
@@ -330,6 +363,11 @@ func Explore(tier string, seed uint64, world int) *chain.WorldResult {
 	pairs := 8
 	if tier == "thorough" {
 		pairs = 60
+	}
+	if t.Pass != "" {
+		// every reload of an encrypted key file costs a full key derivation: fewer variants
+		variants = variants[:2]
+		pairs = 1
 	}
 	for k := 0; k < pairs && n > 2; k++ {
 		v := make([]bool, n)
